@@ -252,6 +252,22 @@ func c15Direct(c *Ctx) {
 			}
 		}
 	}
+	// (b2) the chunk length is the *writer's* choice: Hadoop's BlockCompressorStream cuts at
+	// its buffer size minus the codec's overhead - 218422 bytes with the default 256 KiB
+	// buffer, one more than the client's own 218421, and more on a server configured with a
+	// larger buffer. One block whose only chunk (or first of two chunks) carries that much.
+	for _, csz := range []int{c15Chunk, c15Chunk + 1, c15Chunk + 2, 256 << 10, 2 * c15Chunk, 1 << 20} {
+		for class := 0; class < 3; class++ {
+			for en, enc := range encoders {
+				if !own() {
+					continue
+				}
+				p := c15Content(class, csz+7)
+				checkServer(fmt.Sprintf("srv|chunk=%d|class=%d|enc=%s|one-chunk", csz, class, en), sim.BlockStreamEncode([][][]byte{{p[:csz]}}, enc), p[:csz])
+				checkServer(fmt.Sprintf("srv|chunk=%d|class=%d|enc=%s|then-small", csz, class, en), sim.BlockStreamEncode([][][]byte{{p[:csz], p[csz:]}}, enc), p)
+			}
+		}
+	}
 	// (c) every truncation and every single-byte corruption of small conforming streams
 	for _, sz := range []int{1, 5, 12} {
 		for class := 1; class < 3; class++ {
@@ -434,7 +450,7 @@ func init() {
 	register(&Prop{
 		ID: "C15", Level: "exploration",
 		Technique: "exhaustive small-size enumeration plus chunk-boundary sizes, every buffer split, every block/chunk composition, every truncation and byte flip of small streams, against an independent Hadoop block-stream reader and an independent snappy decoder",
-		Rule: "(a) payload sizes 0..64 and {chunk-1, chunk, chunk+1, 2chunk-1, 2chunk, 2chunk+1, 3chunk+5} x 3 content classes, as one buffer, two buffers cut at every position (small) or at chunk edges (large), three buffers for sizes <=16: client compress -> independent reader = input = client decompress; (b) conforming server streams from an independent writer (literal-only snappy and library snappy): every composition into <=3 blocks x 1..3 chunks; (c) every truncation and 8 (thorough 255) substitute values at every byte of small streams: no panic, and any data returned equals what the independent reader returns. Non-trivial = non-empty payload / any damaged stream. (a2) every size 65..9000 (thorough 70000) x {compressible, incompressible} x state of the client's buffer pool {cold, warm from the previous round, holding only a tiny buffer}, each in its own controlled execution with a deterministic pool.",
+		Rule: "(a) payload sizes 0..64 and {chunk-1, chunk, chunk+1, 2chunk-1, 2chunk, 2chunk+1, 3chunk+5} x 3 content classes, as one buffer, two buffers cut at every position (small) or at chunk edges (large), three buffers for sizes <=16: client compress -> independent reader = input = client decompress; (b) conforming server streams from an independent writer (literal-only snappy and library snappy): every composition into <=3 blocks x 1..3 chunks; chunks of 218421, 218422 (Hadoop's default cut), 218423, 256 KiB, two client chunks and 1 MiB; (c) every truncation and 8 (thorough 255) substitute values at every byte of small streams: no panic, and any data returned equals what the independent reader returns. Non-trivial = non-empty payload / any damaged stream. (a2) every size 65..9000 (thorough 70000) x {compressible, incompressible} x state of the client's buffer pool {cold, warm from the previous round, holding only a tiny buffer}, each in its own controlled execution with a deterministic pool.",
 		Assumptions: []string{"raw snappy carries no checksum: a flipped literal byte is undetectable by any conforming reader, so the oracle for corruption is differential", "chunk = 218421 bytes (Hadoop SnappyCodec buffer)"},
 		Quick:       90 * time.Second, Thorough: 10 * time.Minute,
 		Direct: c15Direct, Arch32: true,
